@@ -739,6 +739,12 @@ class ItemList:
         elif self._vocab is not None:
             state["numbers"] = self.numbers(missing="negative")
 
+        if self.ordered and self._ranks is not None:
+            ranks = self._ranks.numpy()
+            # the default ranks 1..n are recomputed on demand; only others are stored
+            if not np.array_equal(ranks, np.arange(1, self._len + 1)):
+                state["ranks"] = ranks
+
         state.update(("field_" + k, v.numpy()) for (k, v) in self._fields.items())
         return state
 
@@ -748,6 +754,8 @@ class ItemList:
         self._ids = state.get("ids", None)
         if "numbers" in state:
             self._numbers = MTArray(state["numbers"])
+        if "ranks" in state:
+            self._ranks = MTArray(state["ranks"])
         self._fields = {k[6:]: MTArray(v) for (k, v) in state.items() if k.startswith("field_")}
 
     def __str__(self) -> str:
